@@ -77,7 +77,20 @@ def check_table(cfg, crate, rep):
     rep.fn(fn)
     # (when the one-line helper has been written out at its use, write_alg_ident below checks the same thing)
     v = core(Interp(crate).run_fn(fn)["value"]) if fn in crate.bodies else None
-    rep.ob("C01.table", "%s|%s" % (cfg, fn), v is None or isinstance(v, CallV) and v.callee.endswith("ObjectIdentifier::from_slice") and places(v) == {"self.oid_components"}, "identifier OID = self.oid_components", found=v.r() if v is not None else "helper written out at its use")
+    ok_ = v is None or isinstance(v, CallV) and v.callee.endswith("ObjectIdentifier::from_slice") and places(v) == {"self.oid_components"}
+    if not ok_ and isinstance(v, CallV) and v.callee.endswith("ObjectIdentifier::from_slice"):
+        # the helper may take the arcs instead of the algorithm: then it is `from_slice(<its parameter>)` and every caller
+        # hands it some algorithm's `.oid_components`
+        ps_ = [p_.get("name") for p_ in crate.bodies[fn].get("params", []) if p_.get("k") == "Binding"]
+        if len(ps_) == 1 and ps_[0] != "self" and places(v) == {ps_[0]}:
+            sites_ = [(n_, ps2) for name_, b_ in common.all_bodies(crate) if not common.is_test_fn(name_) for c_, n_, ps2 in common.calls_in(b_) if c_ == fn]
+            def _arg_ok(n_):
+                a_ = (n_.get("args") or [None])[0]
+                while isinstance(a_, dict) and a_.get("k") in ("AddrOf", "Deref", "Paren", "DropTemps") and a_.get("e"):
+                    a_ = a_["e"]
+                return isinstance(a_, dict) and a_.get("k") == "Field" and a_.get("name") == "oid_components"
+            ok_ = bool(sites_) and all(_arg_ok(n_) for n_, _ in sites_)
+    rep.ob("C01.table", "%s|%s" % (cfg, fn), ok_, "identifier OID = self.oid_components", found=v.r() if v is not None else "helper written out at its use")
     for fn, ref in (("sign_algo::SignatureAlgorithm::write_alg_ident", [R.alg_ident("self", "self")]),):
         rep.fn(fn)
         I2 = Interp(crate)
